@@ -522,6 +522,9 @@ func runC16History(c *mon.Ctx) {
 					if g.R.Intn(3) == 0 {
 						// a field named Profile that is a private-use claim (other CBOR key): no profile field
 						p, what = extprof.DeviceProfileProfile{Name: name}, "no-profile-field"
+					} else if g.R.Intn(3) == 0 {
+						// a claim whose CBOR key merely starts with the digits of the profile key
+						p, what = extprof.PrefixKeyProfile{Name: name}, "no-profile-field"
 					}
 				}
 				if p == nil {
